@@ -15,6 +15,14 @@ import fakeenv
 from corr import Case, compare, judge, account
 
 LEVEL = "proof"
+RULE = ("random batch blocks (any subset of nodes / procs / reservation / qos / shell / flux uri and args) x step "
+        "resource dictionaries (any subset of the schema's resource keys, integers or digit strings as a substituted "
+        "parameter gives them, walltimes in every admitted spelling) x command texts with 0-3 lines of 0-2 launcher "
+        "tokens each (bare, [Nn, Pp], [Pp, Nn], [Pp], legacy [N, P], nodes-only, within or beyond the step's totals) "
+        "for the real Slurm / LSF / Flux / local adapters, 35% of the cases followed by 2-4 more steps through the "
+        "same adapter instance; a malformed stream (non-numeric counts, None, booleans, broken tokens, missing batch "
+        "keys) is compared with the model but not judged by the monitor; non-trivial = a script was generated for a "
+        "scheduled step; distinct = distinct (adapter, batch, step) triples")
 
 _loaded = {}
 
